@@ -240,11 +240,15 @@ def run_tree(tree: Dict[str, Any]) -> Dict[str, Any]:
             p.parent.mkdir(parents=True, exist_ok=True)
             data = src.encode("utf-8", errors="surrogatepass") if isinstance(src, str) else src
             p.write_bytes(data)
-            try:
-                _ast.parse(data)
-            except (SyntaxError, ValueError):
-                bad.append(rel)
-            except Exception:
+            # "does not parse" as a FILE: a source file is read with a final newline (the interpreter's file
+            # reader and pydoctor's parseFile both supply one), so 'backslash newline' alone is an empty module
+            def parses(b):
+                try:
+                    _ast.parse(b)
+                    return True
+                except Exception:
+                    return False
+            if not parses(data) and not parses(data + b"\n"):
                 bad.append(rel)
         res["bad"] = bad
         out = Path(tmp, "out")
